@@ -110,6 +110,23 @@ impl PlaneSector {
     }
 }
 
+#[cfg(embedded_graphics_verif)]
+impl PlaneSector {
+    /// Verification hook: the operation tag (0 = intersection, 1 = union, 2 = entire plane) and
+    /// the normal vectors of the left and right half planes.
+    pub fn verif_parts(&self) -> (u8, [i32; 2], [i32; 2]) {
+        let tag = match self.operation {
+            Operation::Intersection => 0,
+            Operation::Union => 1,
+            Operation::EntirePlane => 2,
+        };
+        let l = self.half_plane_left.normal_vector;
+        let r = self.half_plane_right.normal_vector;
+
+        (tag, [l.x, l.y], [r.x, r.y])
+    }
+}
+
 #[cfg(test)]
 mod tests {
     use super::*;
